@@ -5,6 +5,6 @@ c=$1; pid=$2; tier=${3:-quick}
 wt=$(mktemp -d /tmp/revwt.XXXXXX)
 git -C /repo worktree add --detach "$wt" HEAD >/dev/null 2>&1
 if ! git -C "$wt" revert --no-commit "$c" >/dev/null 2>&1; then echo "REVERT-CONFLICT $c"; fi
-BV_REPO="$wt" /verif/run "$pid" --tier "$tier" --no-evidence 2>&1 | grep -E "^VIOLATION|sig=|rc=|HARNESS" | head -8
+BV_SHARD_TIMEOUT=${BV_SHARD_TIMEOUT:-150} BV_REPO="$wt" /verif/run "$pid" --tier "$tier" --no-evidence 2>&1 | grep -E "^VIOLATION|sig=|rc=|HARNESS" | head -8
 git -C /repo worktree remove --force "$wt"
 rm -f /verif/replays/$pid/violation-*.json
